@@ -11,6 +11,7 @@ import (
 // It treats \n, \r, \r\n, \u2028, and \u2029 as newlines, which might be different from some languages also recognizing \f to be a newline.
 func Position(r io.Reader, offset int) (line, col int, context string) {
 	l := NewInput(r)
+	defer l.Restore() // give back the byte behind the data if it was borrowed for the terminator
 	line = 1
 	for l.Pos() < offset {
 		c := l.Peek(0)
